@@ -96,6 +96,11 @@ type executor struct {
 	finds   []finding
 	lineIdx int
 	samples []string
+	// last transaction applied (for the worker-loop op)
+	lastClass   string
+	lastTx      *types.Transaction
+	lastReceipt *types.Receipt
+	cands       [][]string // pending C lines
 }
 
 func (e *executor) ask(l string) string {
@@ -199,6 +204,20 @@ func (e *executor) step(l string) bool {
 			return false
 		}
 		e.applyT(f)
+	case "C": // candidate for the worker loop: C <keyIdx> <nonce> <price> <gas> <to|-> <value> <data|->
+		if e.b == nil || len(f) != 8 {
+			return true
+		}
+		e.cands = append(e.cands, []string{"T", "W", f[1], "ok", f[2], f[3], f[4], f[5], f[6], f[7]})
+	case "WORKER":
+		if e.b == nil {
+			return true
+		}
+		if !e.ensureSealed() {
+			return false
+		}
+		e.runWorker()
+		e.cands = nil
 	}
 	return true
 }
@@ -302,6 +321,7 @@ func (e *executor) applyT(f []string) {
 	}()
 	class := classOf(err)
 	rec := *theRec
+	e.lastClass, e.lastTx, e.lastReceipt = class, tx, receipt
 	if err == nil {
 		b.txIndex++
 	}
